@@ -72,6 +72,15 @@ fn cases(thorough: bool) -> Vec<Case> {
     v.push(case("blocked-tail", "Kh8d3c", &["list:AsAh,2c2d"], false, 1, 1176 * 2));
     v.push(case("blocked-tail", "Kh8d3c", &["text:AKs", "text:AKs"], false, 1, 1176 * 16));
     v.push(case("blocked-tail", "2h2d2c", &["list:2s3c"], false, 1, 1176));
+    // weights of exactly zero: the combos are still combos
+    v.push(case("zero-weights", "Qs8d2h", &["text:76s:0"], false, 0, 1176 * 4));
+    v.push(case("zero-weights", "Qs8d2h", &["text:AA:0,KK:0", "text:QQ:0"], false, 0, 1176 * 72));
+    v.push(case("zero-weights", "Qs8d2h", &["text:AsKs:0", "text:AhKh"], false, 0, 1176));
+    v.push(case("zero-weights", "Qs8d2h", &["scope:0,1,10,20", "text:76s:0,AA"], false, 0, 1176 * 10));
+    // a full table
+    v.push(case("full-table", "Qs8d2h", &["text:AsAh", "text:KsKh", "text:QdQc", "text:JsJh", "text:TsTh", "text:9s9h", "text:8s8h", "text:7s7h", "text:6s6h"], false, 0, 1176));
+    v.push(case("full-table", "Qs8d2h", &["text:AsKs", "text:AhKh", "text:AdKd", "text:AcKc", "text:7s6s", "text:7h6h", "text:7d6d", "text:7c6c", "text:2s2d,3s3d", "text:JsJh,TsTh"], false, 0, 1176 * 4));
+    v.push(case("full-table", "2h2d2c", &["text:AsKs", "text:AhKh", "text:AdKd", "text:AcKc", "text:QsJs", "text:QhJh", "text:QdJd", "text:QcJc", "text:TsTh", "text:9s9h"], false, 0, 1176));
     // no players
     v.push(case("no-players", "Qs8d2h", &[], false, 0, 1176));
     // realistic inputs
